@@ -8,6 +8,11 @@ A snippet is JSON:  {"args": [[name, reg|null]...], "ops": [op...], "ret": [name
      | [I, res, rd, a, imm] | [SH, res, rd, a, imm] | ["lw", res, rd, base, imm] | ["sw", base, val, imm]
   rd = null (unallocated `!riscv.reg`) or a register name.  "alloc": run the real register allocator
   first (the documented pipeline canonicalizes *after* allocation).
+Float part (F/D registers): an argument [name, reg, "f"] is a float register; ops
+     [FB, res, rd, a, b, flags]   FB = fadd.d fsub.d fmul.d fdiv.d fmin.d fmax.d and the .s forms, flags = fast-math
+                                  flag list as printed ("" = none, "contract", "reassoc,nnan", "fast" …)
+   | ["fmadd.d"…, res, rd, a, b, c] | ["fmv.d"|"fmv.s", res, rd, src] | ["fld"|"flw", res, rd, base, imm]
+   | ["fsd"|"fsw", base, val, imm]
 """
 from __future__ import annotations
 
@@ -30,11 +35,36 @@ def ty(rd: str | None) -> str:
     return "!riscv.reg" if rd is None else f"!riscv.reg<{rd}>"
 
 
+def fty(rd: str | None) -> str:
+    return "!riscv.freg" if rd is None else f"!riscv.freg<{rd}>"
+
+
+F_BIN = [b + p for p in (".d", ".s") for b in ("fadd", "fsub", "fmul", "fdiv", "fmin", "fmax")]
+F_FMA = [b + p for p in (".d", ".s") for b in ("fmadd", "fmsub", "fnmsub", "fnmadd")]
+# fast-math flags in the order of xdsl.dialects.builtin.FastMathFlag; bit k of a flag mask = FLAG_NAMES[k]
+FLAG_NAMES = ["reassoc", "nnan", "ninf", "nsz", "arcp", "contract", "afn"]
+
+
+def flag_set(flags: str) -> frozenset[str]:
+    fl = frozenset(x.strip() for x in flags.split(",") if x.strip())
+    return frozenset(FLAG_NAMES) if "fast" in fl else fl
+
+
+def flag_mask(flags: str) -> int:
+    fs = flag_set(flags)
+    return sum(1 << k for k, n in enumerate(FLAG_NAMES) if n in fs)
+
+
+def is_float_snippet(s: dict[str, Any]) -> bool:
+    return any(len(a) > 2 for a in s["args"]) or any(str(op[0]).startswith("f") for op in s["ops"])
+
+
 def snip_text(s: dict[str, Any]) -> str:
     types: dict[str, str] = {}
     hdr = []
-    for name, reg in s["args"]:
-        types[name] = ty(reg)
+    for arg in s["args"]:
+        name, reg = arg[0], arg[1]
+        types[name] = fty(reg) if len(arg) > 2 else ty(reg)
         hdr.append(f"%{name} : {types[name]}")
     lines = []
     for op in s["ops"]:
@@ -69,6 +99,26 @@ def snip_text(s: dict[str, Any]) -> str:
         elif k == "sw":
             _, a, b, imm = op
             lines.append(f"  riscv.sw %{a}, %{b}, {imm} : ({types[a]}, {types[b]}) -> ()")
+        elif k in F_BIN:
+            _, res, rd, a, b, flags = op
+            types[res] = fty(rd)
+            fm = f" fastmath<{flags}>" if flags else ""
+            lines.append(f"  %{res} = riscv.{k} %{a}, %{b}{fm} : ({types[a]}, {types[b]}) -> {types[res]}")
+        elif k in F_FMA:
+            _, res, rd, a, b, c = op
+            types[res] = fty(rd)
+            lines.append(f"  %{res} = riscv.{k} %{a}, %{b}, %{c} : ({types[a]}, {types[b]}, {types[c]}) -> {types[res]}")
+        elif k in ("fmv.d", "fmv.s"):
+            _, res, rd, src = op
+            types[res] = fty(rd)
+            lines.append(f"  %{res} = riscv.{k} %{src} : ({types[src]}) -> {types[res]}")
+        elif k in ("fld", "flw"):
+            _, res, rd, a, imm = op
+            types[res] = fty(rd)
+            lines.append(f"  %{res} = riscv.{k} %{a}, {imm} : ({types[a]}) -> {types[res]}")
+        elif k in ("fsd", "fsw"):
+            _, a, b, imm = op
+            lines.append(f"  riscv.{k} %{a}, %{b}, {imm} : ({types[a]}, {types[b]}) -> ()")
         else:
             raise ValueError(f"bad snippet op {op}")
     rets = ", ".join("%" + r for r in s["ret"])
@@ -142,6 +192,9 @@ def extract(func: Any, namer: Namer | None = None) -> tuple[list[tuple[str, list
         if isinstance(op, riscv.SwOp):
             prog.append(("sw", [nm.reg(op.rs2), nm.reg(op.rs1), _imm(op.immediate)]))
             continue
+        if isinstance(op, (riscv.FSdOp, riscv.FSwOp)):
+            prog.append((op.assembly_instruction_name(), [nm.reg(op.rs2), nm.reg(op.rs1), _imm(op.immediate)]))
+            continue
         if isinstance(op, riscv.RISCVInstruction):
             args: list[Any] = []
             for a in op.assembly_line_args():
@@ -159,6 +212,22 @@ def extract(func: Any, namer: Namer | None = None) -> tuple[list[tuple[str, list
             continue  # no instruction: names a register
         prog.append(("?" + op.name, []))
     return prog, argr, rets
+
+
+def float_regs(func: Any, nm: Namer) -> set[str]:
+    """names (as given by `nm`) of all F/D-register values of the function"""
+    from xdsl.dialects import riscv
+
+    out: set[str] = set()
+    for blk in func.body.blocks:
+        for a in blk.args:
+            if isinstance(a.type, riscv.FloatRegisterType):
+                out.add(nm.reg(a))
+        for op in blk.ops:
+            for v in (*op.operands, *op.results):
+                if isinstance(v.type, riscv.FloatRegisterType):
+                    out.add(nm.reg(v))
+    return out
 
 
 def _imm(a: Any) -> Any:
@@ -188,7 +257,7 @@ def pattern_instances() -> dict[str, Any]:
     from xdsl.transforms.canonicalization_patterns import riscv as cp
 
     out: dict[str, Any] = {}
-    for name in INT_PATTERNS:
+    for name in INT_PATTERNS + FLOAT_PATTERNS:
         cls = getattr(cp, name)
         if name == "ShiftbyZero":
             out[name] = cls(rv32.RV32RdRsImmShiftOperation)
@@ -207,11 +276,11 @@ INT_PATTERNS = [
     "AdditionOfSameVariablesToMultiplyByTwo", "BitwiseAndByZero", "BitwiseAndBySelf", "BitwiseOrByZero",
     "BitwiseOrBySelf", "XorBySelf", "BitwiseXorByZero", "LoadImmediate0",
 ]
-# not covered by the integer machine (stated in META.level_note): RemoveRedundantFMv, RemoveRedundantFMvD,
-# Load/Store{FloatWord,Double}WithKnownOffset, FuseMultiplyAddD, ScfgwOpUsingImmediate (snitch)
-OTHER_PATTERNS = ["RemoveRedundantFMv", "RemoveRedundantFMvD", "LoadFloatWordWithKnownOffset",
-                  "StoreFloatWordWithKnownOffset", "LoadDoubleWithKnownOffset", "StoreDoubleWithKnownOffset",
-                  "FuseMultiplyAddD", "ScfgwOpUsingImmediate"]
+# the patterns on F/D registers (executed on the float part of the machine; FuseMultiplyAddD also has a Lean rule)
+FLOAT_PATTERNS = ["FuseMultiplyAddD", "RemoveRedundantFMv", "RemoveRedundantFMvD", "LoadFloatWordWithKnownOffset",
+                  "StoreFloatWordWithKnownOffset", "LoadDoubleWithKnownOffset", "StoreDoubleWithKnownOffset"]
+# not covered (stated in META.level_note): ScfgwOpUsingImmediate (snitch)
+OTHER_PATTERNS = ["ScfgwOpUsingImmediate"]
 
 
 def apply_single(m: Any, pattern: Any) -> bool:
@@ -488,14 +557,248 @@ def input_vectors(rng: Any, argr: list[str], mem: bool, n: int) -> list[dict[str
     return out
 
 
-def run_prog(prog: list[tuple[str, list[Any]]], regs: dict[str, int], rets: list[str], mem_seed: int) -> tuple[Any, ...]:
-    """observation = ("ok", returned registers, sorted stores) or ("trap", reason)"""
-    m = rv.Machine(prog, regs, mem_seed)
+def run_prog(prog: list[tuple[str, list[Any]]], regs: dict[str, int], rets: list[str], mem_seed: int,
+             fset: frozenset[str] = frozenset(), fuse: dict[int, tuple[int, int]] | None = None) -> tuple[Any, ...]:
+    """observation = ("ok", returned registers, sorted stores) or ("trap", reason).  `fset`: the names in
+    `regs`/`rets` that are F/D registers (64-bit patterns); `fuse`: contraction choice (see Machine.fuse)"""
+    m = rv.Machine(prog, {k: v for k, v in regs.items() if k not in fset}, mem_seed)
+    for k in fset:
+        if k in regs:
+            m.setf(k, regs[k])
+    if fuse:
+        m.fuse = dict(fuse)
     try:
         m.run_straight()
     except rv.Trap as e:
         return ("trap", str(e))
-    return ("ok", [m.get(r) for r in rets], sorted(m.mem.items()))
+    return ("ok", [m.getf(r) if r in fset else m.get(r) for r in rets], sorted(m.mem.items()))
+
+
+# ------------------------------------------------------------------------------------------------
+# float snippets
+# ------------------------------------------------------------------------------------------------
+
+FLAG_CHOICES = ["", "contract", "reassoc", "fast", "nnan", "ninf", "nsz", "arcp", "afn", "reassoc,nnan",
+                "nnan,contract", "reassoc,contract", "reassoc,nnan,ninf,nsz,arcp,afn"]
+
+FVALS = [0.0, -0.0, 1.0, -1.0, 1.5, 2.0, 0.1, 10.0, 3.0, 1.0 / 3.0, 1.0 + 2.0 ** -30, 1.0 - 2.0 ** -30, 1e308, -1e308, 5e-324,
+         2.2250738585072014e-308, float("inf"), float("-inf"), float("nan"), 1e-160, 123456789.123, -7.25]
+
+
+def rand_f64(rng: Any) -> int:
+    r = rng.random()
+    if r < 0.3:
+        return rv.f64_bits(rng.choice(FVALS))
+    if r < 0.9:   # full mantissa, moderate exponent: products and sums are inexact
+        return (rng.getrandbits(1) << 63) | ((1023 + rng.randint(-40, 40)) << 52) | rng.getrandbits(52)
+    return rng.getrandbits(64)
+
+
+def rand_f32(rng: Any) -> int:
+    """a NaN-boxed single-precision value (what a valid f32 looks like in a 64-bit F/D register)"""
+    r = rng.random()
+    if r < 0.3:
+        v = rng.choice([0, 0x80000000, 0x3F800000, 0xBF800000, 0x3FC00000, 0x7F800000, 0xFF800000, 0x7FC00000, 1, 0x00800000, 0x7F7FFFFF, 0x3DCCCCCD])
+    elif r < 0.9:
+        v = (rng.getrandbits(1) << 31) | ((127 + rng.randint(-20, 20)) << 23) | rng.getrandbits(23)
+    else:
+        v = rng.getrandbits(32)
+    return rv.box32(v)
+
+
+def related_f64(rng: Any, vals: list[int]) -> list[int]:
+    """float argument vector; with probability 1/2 the last one cancels a product of two others
+    (the rounding error of the product then survives the addition)"""
+    vals = list(vals)
+    if len(vals) >= 3 and rng.random() < 0.5:
+        a, b = rng.choice(vals[:-1]), rng.choice(vals[:-1])
+        prod = rv.fbin("fmul", a, b, True)
+        vals[-1] = prod ^ (1 << 63) if rng.random() < 0.8 else prod
+    return vals
+
+
+def float_names(s: dict[str, Any]) -> set[str]:
+    """names of the snippet's values that live in F/D registers"""
+    out = {a[0] for a in s["args"] if len(a) > 2}
+    for op in s["ops"]:
+        k = op[0]
+        if k in F_BIN or k in F_FMA or k in ("fmv.d", "fmv.s", "fld", "flw"):
+            out.add(op[1])
+    return out
+
+
+def licensed_contractions(s: dict[str, Any]) -> list[tuple[int, list[tuple[int, int]]]]:
+    """read from the snippet itself (not from xDSL): for every fadd/fsub that carries `contract` the products it
+    may be contracted with - (position of the add, [(position of the mul, operand index)]) with positions in the
+    extracted instruction list (every op except `zero` is one instruction).  Contraction needs `contract` on
+    BOTH operations (LLVM LangRef / MLIR arith fastmath: the flag of an instruction licenses transformations of
+    that instruction; a fused multiply-add replaces both)."""
+    pos: dict[str, tuple[int, Any]] = {}
+    n = 0
+    out = []
+    for op in s["ops"]:
+        if op[0] == "zero":
+            continue
+        if op[0] in F_BIN:
+            base, prec = op[0].split(".")
+            if base in ("fadd", "fsub") and "contract" in flag_set(op[5]):
+                cands = []
+                for idx, src in enumerate((op[3], op[4])):
+                    d = pos.get(src)
+                    if d is not None and d[1][0] == "fmul." + prec and "contract" in flag_set(d[1][5]):
+                        cands.append((d[0], idx))
+                if cands:
+                    out.append((n, cands))
+        if op[0] not in ("sw", "fsd", "fsw"):
+            pos[op[1]] = (n, op)
+        n += 1
+    return out
+
+
+def contraction_choices(lic: list[tuple[int, list[tuple[int, int]]]], limit: int = 81) -> list[dict[int, tuple[int, int]]]:
+    outs: list[dict[int, tuple[int, int]]] = [{}]
+    for add_pos, cands in lic:
+        outs = [{**o, **({add_pos: c} if c is not None else {})} for o in outs for c in [None, *cands]]
+        if len(outs) > limit:
+            return outs[:limit]
+    return outs[1:]  # without the strict evaluation
+
+
+class FGen(Gen):
+    def flags2(self) -> tuple[str, str]:
+        f1 = self.rng.choice(FLAG_CHOICES)
+        return (f1, f1) if self.rng.random() < 0.5 else (f1, self.rng.choice(FLAG_CHOICES))
+
+    def fwrap(self, ops: list[Any], res: list[str], nf: int = 3, alloc: bool | None = None, target: str = "r",
+              base: bool = False) -> dict[str, Any]:
+        """function around `ops`: float arguments x, y, z (+ an integer address `b`), results to fa0/fa1"""
+        alloc = self.rng.random() < 0.5 if alloc is None else alloc
+        names = ["x", "y", "z"][:nf]
+        if alloc:
+            args: list[Any] = [[f"arg{i}", f"fa{i}", "f"] for i in range(nf)]
+            pre: list[Any] = [["fmv.d", n, None, f"arg{i}"] for i, n in enumerate(names)]
+            if base:
+                args.insert(0, ["argb", "a0"])
+                pre.insert(0, ["mv", "b", None, "argb"])
+            post, rets = [], []
+            for i, r in enumerate(res[:2]):
+                post.append(["fmv.d", f"ret{i}", f"fa{i}", r])
+                rets.append(f"ret{i}")
+            return {"args": args, "ops": pre + ops + post, "ret": rets, "alloc": True, "target": target}
+        args = ([["b", None]] if base else []) + [[n, None, "f"] for n in names]
+        return {"args": args, "ops": ops, "ret": res[:2], "alloc": False, "target": target}
+
+
+def gen_float(pattern: str, g: FGen, shape: int | None = None, flags: tuple[str, str] | None = None,
+              alloc: bool | None = None) -> dict[str, Any]:
+    rng = g.rng
+    ops: list[Any] = []
+    if pattern == "FuseMultiplyAddD":
+        f1, f2 = flags if flags is not None else g.flags2()
+        k = rng.randrange(10) if shape is None else shape
+        if k == 0:
+            ops += [["fmul.d", "m", None, "x", "y", f1], ["fadd.d", "r", None, "m", "z", f2]]
+        elif k == 1:
+            ops += [["fmul.d", "m", None, "x", "y", f1], ["fadd.d", "r", None, "z", "m", f2]]
+        elif k == 2:   # the product has a second use
+            ops += [["fmul.d", "m", None, "x", "y", f1], ["fadd.d", "r", None, "m", "z", f2]]
+            return g.fwrap(ops, ["r", "m"], alloc=alloc)
+        elif k == 3:   # work between product and sum
+            ops += [["fmul.d", "m", None, "x", "y", f1], ["fadd.d", "w", None, "z", "z", rng.choice(FLAG_CHOICES)],
+                    ["fadd.d", "r", None, "m", "w", f2]]
+        elif k == 4:
+            ops += [["fmul.d", "m", None, "x", "x", f1], ["fadd.d", "r", None, "m", "x", f2]]
+        elif k == 5:   # both operands are products
+            ops += [["fmul.d", "m", None, "x", "y", f1], ["fmul.d", "n", None, "y", "z", rng.choice([f1, f2])],
+                    ["fadd.d", "r", None, "m", "n", f2]]
+        elif k == 6:   # single precision: no pattern
+            ops += [["fmul.s", "m", None, "x", "y", f1], ["fadd.s", "r", None, "m", "z", f2]]
+            return dict(g.fwrap(ops, ["r"], alloc=alloc), f32=True)
+        elif k == 7:   # subtraction: no pattern
+            ops += [["fmul.d", "m", None, "x", "y", f1], ["fsub.d", "r", None, "m", "z", f2]]
+        elif k == 8:   # the multiplicands die before the sum (their registers may be reused once allocated)
+            ops += [["fmul.d", "m", None, "x", "y", f1], ["fadd.d", "t", None, "x", "y", ""], ["fmul.d", "u", None, "t", "t", ""],
+                    ["fadd.d", "r", None, "m", "z", f2], ["fadd.d", "r2", None, "r", "u", ""]]
+            return g.fwrap(ops, ["r2"], alloc=alloc)
+        else:          # two sums of products in a row
+            ops += [["fmul.d", "m", None, "x", "y", f1], ["fadd.d", "p", None, "m", "z", f2],
+                    ["fmul.d", "n", None, "p", "y", f2], ["fadd.d", "r", None, "x", "n", f1]]
+        return g.fwrap(ops, ["r"], alloc=alloc)
+    if pattern in ("RemoveRedundantFMv", "RemoveRedundantFMvD"):
+        sgl = pattern == "RemoveRedundantFMv"
+        mv, add = ("fmv.s", "fadd.s") if sgl else ("fmv.d", "fadd.d")
+        k = rng.randrange(3)
+        A = [["x", "fa0", "f"], ["y", "fa1", "f"]]
+        if k == 0:
+            t = {"args": A, "ops": [[mv, "m", "fa0", "x"], [add, "r", "fa0", "m", "y", ""]], "ret": ["r"], "alloc": False, "target": "m"}
+        elif k == 1:
+            t = {"args": A, "ops": [[mv, "m", "fa0", "y"], [add, "r", "fa0", "m", "y", ""]], "ret": ["r"], "alloc": False, "target": "m"}
+        else:
+            t = {"args": A, "ops": [[mv, "m", "ft0", "x"], [mv, "n", "ft0", "m"], [add, "r", "fa0", "n", "y", ""]], "ret": ["r"], "alloc": False, "target": "n"}
+        if sgl:
+            t["f32"] = True   # arguments are NaN-boxed single-precision values
+        return t
+    if pattern in ("LoadFloatWordWithKnownOffset", "StoreFloatWordWithKnownOffset", "LoadDoubleWithKnownOffset", "StoreDoubleWithKnownOffset"):
+        dbl = "Double" in pattern
+        o1 = rng.choice([0, 4, 8, -8, 16, 1024, 2044, 2040, -2048, 24])
+        o2 = rng.choice([0, 4, 8, -8, 16, 1024, 2044, -2048, 8, 2040])
+        ops.append(["addi", "p", None, "b", o1])
+        k = rng.randrange(3)
+        if k == 2:
+            ops.append(["add", "q", None, "p", "p"])
+        if pattern.startswith("Load"):
+            ops.append(["fld" if dbl else "flw", "r", None, "p", o2])
+            ops.append(["fadd.d" if dbl else "fadd.s", "r2", None, "r", "x", ""])
+            s = g.fwrap(ops, ["r2"], nf=1, base=True, alloc=alloc)
+        else:
+            ops.append(["fsd" if dbl else "fsw", "p", "x", o2])
+            s = g.fwrap(ops, ["x"], nf=1, base=True, target="#fst", alloc=alloc)
+        s["mem"] = True
+        if not dbl:
+            s["f32"] = True
+        return s
+    raise ValueError(pattern)
+
+
+def float_directed() -> list[tuple[str, dict[str, Any]]]:
+    """every pair of single fast-math flags (and none / fast) on product and sum, unallocated, in the two
+    operand orders: the contraction licence is decided by exactly these attributes"""
+    g = FGen(None)
+    singles = ["", "fast"] + FLAG_NAMES
+    out = []
+    for f1 in singles:
+        for f2 in singles:
+            out.append(("FuseMultiplyAddD", gen_float("FuseMultiplyAddD", g, shape=0, flags=(f1, f2), alloc=False)))
+            if f1 == f2 or "contract" in (f1, f2) or "fast" in (f1, f2):
+                out.append(("FuseMultiplyAddD", gen_float("FuseMultiplyAddD", g, shape=1, flags=(f1, f2), alloc=False)))
+    # allocated shapes where a multiplicand's register is overwritten before the sum
+    out.append(("FuseMultiplyAddD", {
+        "args": [["arg0", "fa0", "f"], ["arg1", "fa1", "f"], ["arg2", "fa2", "f"]],
+        "ops": [["fmul.d", "m", "ft0", "arg0", "arg1", "contract"], ["fadd.d", "w", "fa0", "arg2", "arg2", ""],
+                ["fadd.d", "r", "fa0", "m", "w", "contract"]],
+        "ret": ["r"], "alloc": False, "target": "r"}))
+    out.append(("FuseMultiplyAddD", gen_float("FuseMultiplyAddD", g, shape=0, flags=("contract", "contract"), alloc=True)))
+    return out
+
+
+def input_vectors_f(rng: Any, s: dict[str, Any], argr: list[str], n: int) -> list[dict[str, int]]:
+    """register vectors for a snippet with float arguments (integer arguments as in `input_vectors`)"""
+    isf = [len(a) > 2 for a in s["args"]]
+    ivals = [0, 1, 2, 0xFFFFFFFF, 0x7FFFFFFF, 0x80000000, 2047, 2048, 31, 0x55555555]
+    out = []
+    for _ in range(n):
+        fv = [rand_f32(rng) for f in isf if f] if s.get("f32") else related_f64(rng, [rand_f64(rng) for f in isf if f])
+        d, k = {}, 0
+        for r, f in zip(argr, isf):
+            if f:
+                d[r] = fv[k]
+                k += 1
+            elif s.get("mem"):
+                d[r] = 0x20000000 + 8 * rng.randrange(0, 2048)
+            else:
+                d[r] = rng.choice(ivals) if rng.random() < 0.5 else rng.getrandbits(32)
+        out.append(d)
+    return out
 
 
 # ------------------------------------------------------------------------------------------------
